@@ -105,3 +105,43 @@ fn u08_width_laws_t3() {
 fn u08_width_laws_t4() {
     check_width_laws::<4>();
 }
+
+// ---------------------------------------------------------------- backing for assumed environment contracts
+// ChangeHash::try_from(&[u8]) -- ASSUMED in the Verus unit u02 (used by parse::change_hash): Ok exactly for
+// 32-byte slices, bytes copied.  Complete for every length 0..=33 (the function only compares the length to 32).
+#[kani::proof]
+#[kani::unwind(35)]
+fn u04_changehash_try_from_slice() {
+    let b: [u8; 33] = kani::any();
+    let n: usize = kani::any();
+    kani::assume(n <= 33);
+    match ChangeHash::try_from(&b[..n]) {
+        Ok(h) => {
+            assert!(n == 32);
+            let mut i = 0;
+            while i < 32 {
+                assert!(h.0[i] == b[i]);
+                i += 1;
+            }
+        }
+        Err(_) => assert!(n != 32),
+    }
+}
+
+// ActorId::from(&[u8]) / to_bytes -- ASSUMED in the Verus units u04c (axiom_actor_of): an actor id is the byte
+// string it was made from.  Bounded: lengths 0..=17 (both the inline and the heap representation of TinyVec).
+#[kani::proof]
+#[kani::unwind(20)]
+fn u04_actorid_bytes_roundtrip() {
+    let b: [u8; 17] = kani::any();
+    let n: usize = kani::any();
+    kani::assume(n <= 17);
+    let a = ActorId::from(&b[..n]);
+    let out = a.to_bytes();
+    assert!(out.len() == n);
+    let mut i = 0;
+    while i < n {
+        assert!(out[i] == b[i]);
+        i += 1;
+    }
+}
